@@ -2,6 +2,7 @@ import F3.Model.CertX
 import F3.Spec.CertX
 import F3.Proofs.CertX
 import F3.Proofs.CertXPoll
+import F3.Proofs.CertXGen
 /-!
 # C16 — Certificate exchange serves exact store slices; pollers store only verified certificates
 
@@ -397,5 +398,68 @@ example : (poll 1 (scriptResponder [.ok 4 [some (Ex.mk 1 [0, 1] 1)]]) 5 0 Ex.p0 
 -- honest two-request catch-up
 example : (poll 1 (scriptResponder [.ok 2 [some (Ex.mk 0 [0, 1] 1)], .ok 2 [some (Ex.mk 1 [0, 1] 1)]])
     5 0 Ex.p0 {}).1.next = 2 := by decide
+
+/-! ## Regenerated: the range arithmetic of `handleRequest` as it stands in `certexchange/server.go`
+
+`F3.Gen.CertX.{serveLimit, servePending, servePowerTableGuard, serveCertsGuard, serveEnd}` are translated
+from the source on every run (`tools/go2lean/targets.d/CertX.json`; `maxResponseLen` is read from the
+source too): the clamp of `limit`, `PendingInstance = latest + 1`, the two guards, and
+`end := first + limit - 1` with its clamp — all `uint64`, wrap included. -/
+
+/-- `handleRequest` with every piece of its range arithmetic replaced by the regenerated definition; the
+store calls (`Latest`, `GetPowerTable`, `GetRange`) are the model's. -/
+def serveGen (s : Store) (r : Request) : Option (Header × List Cert) :=
+  let limit := F3.Gen.CertX.serveLimit r.limit
+  let pending := F3.Gen.CertX.servePending ((s.latest?.getD 0 : Nat) : Int) s.latest?.isSome 0
+  let pt : Option (Option Table) :=
+    if F3.Gen.CertX.servePowerTableGuard r.first r.includePT pending then
+      match s.getPowerTable r.first with
+      | none => none
+      | some t => some (some t)
+    else some none
+  match pt with
+  | none => none
+  | some pt =>
+    let certs :=
+      if F3.Gen.CertX.serveCertsGuard limit r.first pending then
+        s.getRange r.first (F3.Gen.CertX.serveEnd limit r.first pending).toNat
+      else []
+    some (⟨pending.toNat, pt⟩, certs)
+
+/-- **The model's `serve` is the source's arithmetic.** For every store whose latest instance is a
+`uint64` and every request with `uint64` fields — including `first + limit` wrapping around and
+`latest = 2^64 - 1` — the hand-written `serve` (about which `serve_slice`, `serve_count`, … are stated and
+which the driver executes) equals `handleRequest` assembled from the definitions regenerated from
+`server.go`. An edit of the clamp, of a guard or of the `end` computation either keeps this or breaks it. -/
+theorem serve_is_regenerated (s : Store) (r : Request) (hf : r.first < 2 ^ 64) (hl : r.limit < 2 ^ 64)
+    (hlat : ∀ l, s.latest? = some l → l < 2 ^ 64) : serve s r = serveGen s r := by
+  unfold serve serveGen
+  have hp : s.pending < 2 ^ 64 := by
+    unfold Store.pending
+    split
+    · unfold F3.Certs.u64; omega
+    · omega
+  have hmin : min r.limit maxResponseLen < 2 ^ 64 := by omega
+  have hcerts : (if (decide (r.first < s.pending) && decide (0 < min r.limit maxResponseLen)) = true then
+        s.getRange r.first (serveEnd r.first (min r.limit maxResponseLen) s.pending) else []) =
+      (if (decide (r.first < s.pending) && decide (0 < min r.limit maxResponseLen)) = true then
+        s.getRange r.first
+          (F3.Gen.CertX.serveEnd ((min r.limit maxResponseLen : Nat) : Int) r.first s.pending).toNat else []) := by
+    by_cases hc : (decide (r.first < s.pending) && decide (0 < min r.limit maxResponseLen)) = true
+    · have hc' := hc
+      simp only [Bool.and_eq_true, decide_eq_true_eq] at hc'
+      rw [if_pos hc, if_pos hc, F3.Proofs.CertXGen.serveEnd_eq _ _ _ hf hp hmin hc'.1 hc'.2, Int.toNat_natCast]
+    · rw [if_neg hc, if_neg hc]
+  simp only [F3.Proofs.CertXGen.serveLimit_eq, F3.Proofs.CertXGen.servePending_eq s hlat,
+    F3.Proofs.CertXGen.servePowerTableGuard_eq, F3.Proofs.CertXGen.serveCertsGuard_eq, Int.toNat_natCast]
+  rw [hcerts]
+  rfl
+
+-- non-vacuity: a served range, the limit clamp, an empty range; and the wrap-around of `first + limit`
+example : serveGen Ex.st ⟨4, 2, true⟩ = some (⟨7, some Ex.t⟩, [Ex.c 4, Ex.c 5]) ∧
+    serveGen Ex.st ⟨5, 1000, false⟩ = some (⟨7, none⟩, [Ex.c 5, Ex.c 6]) ∧
+    serveGen Ex.st ⟨7, 5, true⟩ = some (⟨7, some Ex.t⟩, []) := by decide
+example : F3.Gen.CertX.serveEnd 256 (2 ^ 64 - 10) (2 ^ 64 - 1) = 2 ^ 64 - 2 ∧
+    F3.Gen.CertX.serveEnd 2 4 7 = 5 ∧ F3.Gen.CertX.serveLimit 1000 = 256 := by decide
 
 end F3.Props.C16
